@@ -154,7 +154,7 @@ def pContentOut : P Content := do
   pure { src, dst, type, packager, info := if has then some fi else none }
 
 def errClassOfName (s : String) : Option ErrClass :=
-  [ErrClass.collision, .notExist, .globNoMatch, .globFailed, .relErr, .invalidType, .walkErr].find? (·.name == s)
+  [ErrClass.collision, .notExist, .globNoMatch, .globFailed, .relErr, .invalidType, .walkErr, .other].find? (·.name == s)
 
 def pPlanResult : P (Except ErrClass (List Content)) := do
   match (← tok) with
